@@ -22,28 +22,28 @@ Open Scope Z_scope.
 
 (* x occurs as a variable (read or assigned) *)
 Fixpoint mentions (x : text) (e : expr) {struct e} : bool :=
-  let stmts := fix stmts (l : list stmt) : bool :=
-    match l with [] => false | s :: r => mentions_s x s || stmts r end in
+  let stmts := fix stmts (x : text) (l : list stmt) : bool :=
+    match l with [] => false | s :: r => mentions_s x s || stmts x r end in
   let exprs := fix exprs (l : list expr) : bool :=
     match l with [] => false | y :: r => mentions x y || exprs r end in
   match e with
   | EInfix l _ r => mentions x l || mentions x r
   | EPrefix _ r => mentions x r
-  | EIf c t alt => mentions x c || stmts t || match alt with Some b => stmts b | None => false end
+  | EIf c t alt => mentions x c || stmts x t || match alt with Some b => stmts x b | None => false end
   | EIdent y => text_eqb x y
-  | EFunction _ _ body => stmts body
+  | EFunction _ _ body => stmts x body
   | ECall f args => mentions x f || exprs args
   | EAssign l r => mentions x l || mentions x r
   | EArray vs => exprs vs
   | EIndex l i => mentions x l || mentions x i
-  | EWhile c b => mentions x c || stmts b
+  | EWhile c b => mentions x c || stmts x b
   | _ => false
   end
 with mentions_s (x : text) (s : stmt) {struct s} : bool :=
   match s with
   | SLet _ e | SReturn e | SExpr e => mentions x e
-  | SBlock b => (fix stmts (l : list stmt) : bool :=
-                   match l with [] => false | s :: r => mentions_s x s || stmts r end) b
+  | SBlock b => (fix stmts (x : text) (l : list stmt) : bool :=
+                   match l with [] => false | s :: r => mentions_s x s || stmts x r end) x b
   | SBreak | SContinue => false
   end.
 
